@@ -28,7 +28,8 @@ RULE = ("A scripted stochastic model (world plain / GridWorld / continuous Space
         "batch_run(processes=1..3) returning its trace as collector records; 'hashseed' cases (c) evaluate a batch of 8 "
         "configurations in fresh interpreters with PYTHONHASHSEED in {1, 4242, generated} and compare all digests. "
         "Non-trivial (also the vacuity guard): the trace contains a pick among >= 2 candidates and a shuffle of >= 3 agents "
-        "AND the digest differs from the digest under seed+1. Distinct = digest of the case.")
+        "AND the digest differs from the digest under seed+1. Distinct = digest of the case."
+        " Added in rounds 19-24: grid models may contain a random walker that shuffles and sorts the neighbour lists it is handed; models may be built without a seed and seeded afterwards through model.random.seed(s), with unseeded models drawing in between.")
 ASSUMPTIONS = ["ambient perturbations are sampled, not enumerated; sources of nondeterminism the harness does not perturb (locale, "
                "environment variables, thread timing - ECAgent uses none) are not covered"]
 
